@@ -170,6 +170,26 @@ def rand_cfg(rng, R, **kw):
     return build_cfg(R, rand_rules(rng, R, V=V, **kw), V=V)
 
 
+def signed_cfg(rng, R):
+    """Signed real weights: a repeated rule comes back with the opposite weight, so that partial sums (of a unary chain,
+    of a nullable symbol, of an item) are exactly zero before or after a later contribution."""
+    g0 = rand_cfg(rng, R, shape="acyclic", nN=rng.choice([2, 3, 3]), nrules=rng.choice([4, 6, 7]), dup=0.5)
+    g = g0.spawn()
+    seen = set()
+    rules = list(g0.rules)
+    for r in rules:
+        k = (r.head, r.body)
+        g.add(-r.w if (k in seen or rng.random() < 0.25) else r.w, r.head, *r.body)
+        seen.add(k)
+    for _ in range(rng.randint(1, 2)):          # at least one exactly cancelling pair; unary rules first
+        un = [r for r in rules if len(r.body) == 1 and r.body[0] not in g.V]
+        r = rng.choice(un if un and rng.random() < 0.6 else rules)
+        g.add(-r.w, r.head, *r.body)
+        if rng.random() < 0.5:
+            g.add(r.w * rng.choice([1, 2]), r.head, *r.body)    # ... and a later contribution on top of the zero
+    return g
+
+
 def ensure_language(g, rng):
     """Add a couple of rules so that something parses (used by history/LM drivers)."""
     R = g.R
